@@ -7,14 +7,17 @@ ALPHABET = ['a', 'b', 'c', 'd', 'e', 'f']
 ZWSP = '\u200b'
 
 
-def charset(nchars, with_space=False):
-    chars = ALPHABET[:nchars]
+UNICODE_ALPHABET = ['a', 'e', '\u0301', '\u2126', 'o', '\u0308']   # combining marks, a canonically decomposable sign
+
+
+def charset(nchars, with_space=False, kind='ascii'):
+    chars = (UNICODE_ALPHABET if kind == 'unicode' else ALPHABET)[:nchars]
     if with_space:
         chars = chars + [' ']
     return chars
 
 
-def line_dense_logits(seed, frames, nsym, amb):
+def line_dense_logits(seed, frames, nsym, amb, value_range='std'):
     """(frames, nsym + 1) float32 logits, last column = CTC blank.
     Each frame has a main class, with probability ``amb`` a strong rival (so that
     beam search and the LM have something to decide), small noise elsewhere."""
@@ -37,6 +40,14 @@ def line_dense_logits(seed, frames, nsym, amb):
         if rs.rand() < 0.15:
             x[t, rs.randint(0, nsym + 1)] = -30.0   # will be pruned for sure
         prev = main
+    if value_range == 'extreme':
+        # a huge dynamic range inside one line: hot frames far above, cold frames far below
+        # (all still above the -80 floor): exercises the numerics of row normalisation
+        for t in range(frames):
+            if rs.rand() < 0.5:
+                x[t] += 63.0
+            else:
+                x[t] = rs.uniform(-63.0, -54.0, size=nsym + 1)
     return x.astype(np.float32)
 
 
@@ -64,11 +75,13 @@ def greedy_ctc(dense, chars):
 def build_line(line_spec, chars, line_id, y=40, width=200):
     from pero_ocr.core.layout import TextLine
     frames = int(line_spec['frames'])
-    dense = line_dense_logits(line_spec['seed'], frames, len(chars), line_spec.get('amb', 0.4))
+    dense = line_dense_logits(line_spec['seed'], frames, len(chars), line_spec.get('amb', 0.4), line_spec.get('range', 'std'))
     logits = sparsify_like_engine(dense)
     coords = line_spec.get('coords')
     if coords == 'none':
         logit_coords = [None, None]
+    elif coords == 'zero':
+        logit_coords = [0, frames]          # a window that starts at frame 0 (zero padding, transformer convention)
     else:
         lo = min(1, frames)
         logit_coords = [lo, max(lo, frames - 1)]
@@ -82,7 +95,7 @@ def build_line(line_spec, chars, line_id, y=40, width=200):
         heights=[20.0, 6.0],
         transcription=transcription,
         logits=logits,
-        characters=list(chars) + [ZWSP],
+        characters=(list(chars)[::-1] if line_spec.get('chars_variant') else list(chars)) + [ZWSP],
         logit_coords=logit_coords,
         index=None)
 
